@@ -483,7 +483,9 @@ Definition step_core (s : st) (o : op) : option M :=      (* outer None = Reject
       Some (destroy_rest s snap true)
   | XDestroyRead =>
       if negb (user_api_ok s) || xc s || xs s || xd s then None else
-      Some (ret (set_dsnap s (Some (connection s, match connection s with Some c => (refs s c =? 1)%nat | None => false end))))
+      (* the stall point is the first enqueue: in the no-connection path Connector::stop() has already stored connect_ = false *)
+      let s' := match connection s with None => set_k_connect s false | Some _ => s end in
+      Some (ret (set_dsnap s' (Some (connection s, match connection s with Some c => (refs s c =? 1)%nat | None => false end))))
   | XDestroyRest =>
       match dsnap s with
       | Some snap => Some (destroy_rest (set_dsnap s None) snap false)
